@@ -51,7 +51,7 @@ def main(argv=None) -> int:
         print(f"ANALYSIS-ERROR property={pid} unknown or not-applicable property")
         return 2
 
-    code, ledger, err = run_property(pid, args.repo, args.tier, seed)
+    code, ledger, err = run_property(pid, args.repo, args.tier, seed, write_files=not os.environ.get("QSA_NOWRITE"))
     if code == 2:
         print(f"ANALYSIS-ERROR property={pid} {err}")
         return 2
